@@ -32,6 +32,8 @@ def run(ctx):
     a01 = _A(ctx.lib)
     if not a01.err:
         ctx.step(C01.r01_2, ctx, a01)
+        # the body is the concatenation of the encoded nodes (no padding between them): the tiling rule R01.3
+        ctx.step(C01.r01_3, ctx, a01)
     # the checksum clause of the format ("trailing word = masked CRC-32C of ALL preceding bytes") is the coverage rule of C08
     import rules.C08 as C08
     from rules.common import Anchors
